@@ -219,6 +219,21 @@ def cases(tier):
                     lst = list(plain)
                     lst[pos] = text
                     yield dict(kind="fwd-odd", tph=("forwarded",), count=count, headers=[("Forwarded", ", ".join(lst))], L=L, pos=pos, odd=kind, oddtext=text)
+    # -- host / port / scheme composition -------------------------------------
+    for host in ("h1.example", "[2001:db8::1]"):
+        for port in (None, "80", "443", "8443"):
+            for proto in (None, "http", "https"):
+                for trust_proto in (True, False):
+                    hdrs = [("X-Forwarded-Host", host)]
+                    tph = ["x-forwarded-host"]
+                    if port is not None:
+                        hdrs.append(("X-Forwarded-Port", port))
+                        tph.append("x-forwarded-port")
+                    if proto is not None:
+                        hdrs.append(("X-Forwarded-Proto", proto))
+                    if trust_proto:
+                        tph.append("x-forwarded-proto")
+                    yield dict(kind="hostport", tph=tuple(tph), count=1, headers=hdrs, host=host, port=port, proto=proto if trust_proto else None)
     # -- untrusted kinds present next to trusted ones --------------------------
     allh = {
         "forwarded": ("Forwarded", "for=6.6.6.6;host=evil.example;proto=https"),
@@ -323,6 +338,22 @@ def judge(case, got, status, esc, log, base):
             v.append(("wrong:url_scheme", f"{tag}: wsgi.url_scheme={g.get('wsgi.url_scheme')!r} although no proto was given"))
         if ok[0] == "port" and g.get("SERVER_PORT") != ok[1]:
             v.append(("wrong:SERVER_PORT", f"{tag}: SERVER_PORT={g.get('SERVER_PORT')!r}"))
+        return v
+    if kind == "hostport":
+        if not need200():
+            return v
+        scheme = case["proto"] or base["wsgi.url_scheme"]
+        port = case["port"] or ({"http": "80", "https": "443"}[scheme] if case["proto"] else None)
+        default = {"http": "80", "https": "443"}[scheme]
+        want_host = case["host"] if (port is None or port == default) else f"{case['host']}:{port}"
+        if g.get("SERVER_NAME") != case["host"]:
+            v.append(("wrong:SERVER_NAME", f"{tag}: SERVER_NAME={g.get('SERVER_NAME')!r}"))
+        if g.get("HTTP_HOST") != want_host:
+            v.append(("wrong:HTTP_HOST", f"{tag}: HTTP_HOST={g.get('HTTP_HOST')!r}, expected {want_host!r} (scheme {scheme}, port {port})"))
+        if g.get("wsgi.url_scheme") != scheme:
+            v.append(("wrong:url_scheme", f"{tag}: wsgi.url_scheme={g.get('wsgi.url_scheme')!r}"))
+        if port is not None and g.get("SERVER_PORT") != port:
+            v.append(("wrong:SERVER_PORT", f"{tag}: SERVER_PORT={g.get('SERVER_PORT')!r}, expected {port!r}"))
         return v
     if kind in ("fwd-plain", "fwd-missing"):
         if not need200():
